@@ -399,8 +399,10 @@ class DigestCredentialFactory:
         response = b" ".join(response.splitlines())
         parts = self._parseparts.findall(response)
         auth = {}
-        for key, bare, quoted in parts:
-            value = (quoted or bare).strip()
+        for key, quoted, bare in parts:
+            # The content of a quoted string is literal; only a bare value
+            # may be surrounded by optional whitespace.
+            value = bare.strip() or quoted
             try:
                 auth[nativeString(key.strip())] = value
             except UnicodeError:
